@@ -112,6 +112,10 @@ def check(run):
                  "endings (EOF, errors, client cancel, input closed), releases in every order, lines, output, shutdown; biased to stay near "
                  "full attachment and inside tear-down windows")
     http_stream(run)
+    B.run_stream(run, binp, "goneclients", 1, B.gone_clients(run.rng, 60 if run.tier == "quick" else 1500), CLAUSES,
+                 "attempts whose client has already hung up when they reach admission (request context done beforehand) on an idle, half attached "
+                 "and fully attached broker, with the right, a wrong and an empty ID: each is still either attached (and then logged) or refused "
+                 "with its notice and its single error record; monitor only")
     run.assumptions += ["sync.Mutex gives the atomicity the model's step granularity assumes; subtle.ConstantTimeCompare = byte equality",
                         "a client cannot send the 1024-byte random bidirectional sentinel as an ID",
                         "net/http's ServeMux percent-decodes the {id} path element (PathValue); an empty element is not routed to the handlers"]
